@@ -365,6 +365,11 @@ func TestVerifVT(t *testing.T) {
 	if run.Thorough() {
 		maxCells, maxCells2 = 12, 8
 		depth2 = 8
+		if prop == "C18" {
+			// the console cells are part of the state here: keep the fixed-point search within memory
+			maxCells, maxCells2 = 10, 6
+			depth2 = 7
+		}
 	}
 	complete := true
 	idx := 0
